@@ -94,16 +94,81 @@ theorem unesc_u (c : Nat) (rest : Str) (h : c < 65536) :
   congr 1
   omega
 
-/-- strings the text reader can round-trip: every code point is below 0x10000 or printable
-(`repr` writes non-printable astral characters as `\Uhhhhhhhh`, which the reader does not know) -/
-def StrOk (pr : Nat → Bool) (s : Str) : Prop := ∀ c ∈ s, c < 65536 ∨ pr c = true
+/-- `\U` + 8 hex digits of a code point (< 0x110000) — the alternative added by fix 1c58093 -/
+theorem unesc_U (c : Nat) (rest : Str) (h : c < 1114112) :
+    unescapeFrom .norm (92 :: 85 :: (hexN 8 c ++ rest)) = c :: unescapeFrom .norm rest := by
+  have e7 : c / 16 / 16 / 16 / 16 / 16 / 16 / 16 % 16 = 0 := by omega
+  have e6 : c / 16 / 16 / 16 / 16 / 16 / 16 % 16 = 0 := by omega
+  have h4 : c / 16 / 16 / 16 / 16 % 16 < 16 := Nat.mod_lt _ (by decide)
+  have h3 : c / 16 / 16 / 16 % 16 < 16 := Nat.mod_lt _ (by decide)
+  have h2 : c / 16 / 16 % 16 < 16 := Nat.mod_lt _ (by decide)
+  have h1 : c / 16 % 16 < 16 := Nat.mod_lt _ (by decide)
+  have h0 : c % 16 < 16 := Nat.mod_lt _ (by decide)
+  have hx : hexN 8 c = [hexDigit (c / 16 / 16 / 16 / 16 / 16 / 16 / 16 % 16), hexDigit (c / 16 / 16 / 16 / 16 / 16 / 16 % 16),
+      hexDigit (c / 16 / 16 / 16 / 16 / 16 % 16), hexDigit (c / 16 / 16 / 16 / 16 % 16), hexDigit (c / 16 / 16 / 16 % 16),
+      hexDigit (c / 16 / 16 % 16), hexDigit (c / 16 % 16), hexDigit (c % 16)] := by simp [hexN]
+  rw [unesc_norm_bs, hx, e7, e6]
+  have hU : ∀ l : Str, unescapeFrom .bs (85 :: l) = unescapeFrom (.uni 0 0 [85]) l := by
+    intro l; simp [unescapeFrom, escStep, simpleEsc, isOct]
+  have hz : hexDigit 0 = 48 := by decide
+  -- the four variable hex digits
+  have step : ∀ (pos v : Nat) (lit : Str) (x : Nat) (l : Str), 4 ≤ pos → pos < 7 → isHex x = true →
+      unescapeFrom (.uni pos v lit) (x :: l) = unescapeFrom (.uni (pos + 1) (v * 16 + hexVal x) (lit ++ [x])) l := by
+    intro pos v lit x l hp hp' hxx
+    have a1 : ¬ pos < 2 := by omega
+    have a2 : ¬ pos = 2 := by omega
+    have a3 : ¬ pos = 3 := by omega
+    have a7 : ¬ pos = 7 := by omega
+    simp [unescapeFrom, escStep, a1, a2, a3, a7, hxx]
+  have last : ∀ (v : Nat) (lit : Str) (x : Nat) (l : Str), isHex x = true →
+      unescapeFrom (.uni 7 v lit) (x :: l) = (v * 16 + hexVal x) :: unescapeFrom .norm l := by
+    intro v lit x l hxx
+    simp [unescapeFrom, escStep, hxx]
+  simp only [List.cons_append, List.nil_append, hz]
+  rw [hU]
+  have p01 : ∀ l : Str, unescapeFrom (.uni 0 0 [85]) (48 :: 48 :: l) = unescapeFrom (.uni 2 0 [85, 48, 48]) l := by
+    intro l; simp [unescapeFrom, escStep]
+  rw [p01]
+  by_cases h5 : c / 16 / 16 / 16 / 16 / 16 % 16 = 0
+  · rw [h5, hz]
+    have p23 : ∀ (x : Nat) (l : Str), isHex x = true →
+        unescapeFrom (.uni 2 0 [85, 48, 48]) (48 :: x :: l) = unescapeFrom (.uni 4 (hexVal x) [85, 48, 48, 48, x]) l := by
+      intro x l hxx; simp [unescapeFrom, escStep, hxx]
+    rw [p23 _ _ (isHex_hexDigit _ h4)]
+    rw [step 4 _ _ _ _ (by decide) (by decide) (isHex_hexDigit _ h3)]
+    rw [step 5 _ _ _ _ (by decide) (by decide) (isHex_hexDigit _ h2)]
+    rw [step 6 _ _ _ _ (by decide) (by decide) (isHex_hexDigit _ h1)]
+    rw [last _ _ _ _ (isHex_hexDigit _ h0)]
+    rw [hexVal_hexDigit _ h4, hexVal_hexDigit _ h3, hexVal_hexDigit _ h2, hexVal_hexDigit _ h1, hexVal_hexDigit _ h0]
+    congr 1
+    omega
+  · have h51 : c / 16 / 16 / 16 / 16 / 16 % 16 = 1 := by omega
+    have h40 : c / 16 / 16 / 16 / 16 % 16 = 0 := by omega
+    rw [h51, h40, hz]
+    have ho : hexDigit 1 = 49 := by decide
+    rw [ho]
+    have p23 : ∀ l : Str,
+        unescapeFrom (.uni 2 0 [85, 48, 48]) (49 :: 48 :: l) = unescapeFrom (.uni 4 16 [85, 48, 48, 49, 48]) l := by
+      intro l; simp [unescapeFrom, escStep]
+    rw [p23]
+    rw [step 4 _ _ _ _ (by decide) (by decide) (isHex_hexDigit _ h3)]
+    rw [step 5 _ _ _ _ (by decide) (by decide) (isHex_hexDigit _ h2)]
+    rw [step 6 _ _ _ _ (by decide) (by decide) (isHex_hexDigit _ h1)]
+    rw [last _ _ _ _ (isHex_hexDigit _ h0)]
+    rw [hexVal_hexDigit _ h3, hexVal_hexDigit _ h2, hexVal_hexDigit _ h1, hexVal_hexDigit _ h0]
+    congr 1
+    omega
+
+/-- a Python `str`: every element is a code point (`repr` writes a non-printable character above U+FFFF
+as `\Uhhhhhhhh`; the reader knows that escape since fix 1c58093) -/
+def StrOk (s : Str) : Prop := ∀ c ∈ s, c < 1114112
 
 theorem unesc_bs_simple (c v : Nat) (rest : Str) (h : simpleEsc c = some v) :
     unescapeFrom .bs (c :: rest) = v :: unescapeFrom .norm rest := by
   simp [unescapeFrom, escStep, h]
 
 theorem unesc_escChar (pr : Nat → Bool) (q c : Nat) (rest : Str) (hq : q = 39 ∨ q = 34)
-    (hc : c < 65536 ∨ pr c = true) :
+    (hc : c < 1114112) :
     unescapeFrom .norm (escChar pr q c ++ rest) = c :: unescapeFrom .norm rest := by
   unfold escChar
   split
@@ -152,13 +217,11 @@ theorem unesc_escChar (pr : Nat → Bool) (q c : Nat) (rest : Str) (hq : q = 39 
   · rename_i h
     simp only [List.cons_append]
     exact unesc_u c rest (by omega)
-  · rename_i hp _ h
-    rcases hc with hc | hc
-    · omega
-    · exact absurd hc hp
+  · simp only [List.cons_append]
+    exact unesc_U c rest hc
 
 theorem unesc_escBody (pr : Nat → Bool) (q : Nat) (s : Str) (hq : q = 39 ∨ q = 34)
-    (h : StrOk pr s) : unescape (escBody pr q s) = s := by
+    (h : StrOk s) : unescape (escBody pr q s) = s := by
   unfold unescape escBody
   induction s with
   | nil => simp [unescapeFrom, escFinish]
@@ -266,7 +329,7 @@ theorem parseAttr_quoted (q : Nat) (body : Str) (hq : q = 39 ∨ q = 34)
   simp only [h2, h3, h4, h5]
   simp
 
-theorem str_roundtrip (pr : Nat → Bool) (s : Str) (h : StrOk pr s) :
+theorem str_roundtrip (pr : Nat → Bool) (s : Str) (h : StrOk s) :
     parseAttr (reprStr pr s) = .ok (.str s) := by
   unfold reprStr
   rw [parseAttr_quoted _ _ (quoteOf_cases s) (strip_escBody pr _ s (quoteOf_cases s)),
@@ -792,67 +855,49 @@ theorem float_roundtrip (l : Str) (h : isFloatRepr l = true) : parseAttr l = .ok
     · rename_i hnan; subst hnan; rfl
     · exact float_core l l (Or.inl rfl) (fshape_of_span l h) ht hf
 
-/-! ## the partial round trip and the witnesses against the full one -/
+/-! ## the full round trip -/
 
-def AttrOk (pr : Nat → Bool) : AttrVal → Prop
-  | .str s => StrOk pr s
+/-- well-formed attribute values: a `str` is a list of code points, a `float` is carried as the literal
+`float.__repr__` produces.  These are typing conditions of the model's carrier, not exclusions. -/
+def ValidAttr : AttrVal → Prop
+  | .str s => StrOk s
   | .int _ => True
   | .bool _ => True
   | .float l => isFloatRepr l = true
-  | .npFloat _ => False
-  | .npInt _ => False
 
-theorem attr_roundtrip_partial (pr : Nat → Bool) (v : AttrVal) (h : AttrOk pr v) :
+theorem attr_roundtrip (pr : Nat → Bool) (v : AttrVal) (h : ValidAttr v) :
     parseAttr (pyRepr pr v) = .ok v := by
   cases v with
   | str s => exact str_roundtrip pr s h
   | int i => exact int_roundtrip i
   | bool b => exact bool_roundtrip pr b
   | float l => exact float_roundtrip l h
-  | npFloat l => exact absurd h id
-  | npInt i => exact absurd h id
 
-/-- `np.float64(1.5)` -/
-theorem npfloat_not_roundtrip :
-    parseAttr (pyRepr (fun _ => true) (.npFloat [49, 46, 53])) = .error .valueError := by rfl
-
-/-- `np.int64(5)` -/
-theorem npint_not_roundtrip :
-    parseAttr (pyRepr (fun _ => true) (.npInt 5)) = .error .valueError := by rfl
-
-/-- `'\U000e0001'` comes back as the 10 characters `\U000e0001` -/
-theorem astral_not_roundtrip :
-    parseAttr (pyRepr (fun _ => false) (.str [917505])) =
-      .ok (.str [92, 85, 48, 48, 48, 101, 48, 48, 48, 49]) := by rfl
-
-theorem attr_roundtrip_false :
-    ¬ ∀ (pr : Nat → Bool) (v : AttrVal), parseAttr (pyRepr pr v) = .ok v := by
-  intro h
-  have h1 := h (fun _ => true) (.npInt 5)
-  rw [npint_not_roundtrip] at h1
-  cases h1
+/-- historical example (a constant, not the source): the text `np.float64(1.5)`, which the writer produced
+before fix 4c93d47 for the timestamp of a dataset read from HDF5, is not a readable attribute value -/
+theorem npfloat_text_unreadable :
+    parseAttr [110, 112, 46, 102, 108, 111, 97, 116, 54, 52, 40, 49, 46, 53, 41] = .error .valueError := by rfl
 
 /-! ## the hypotheses are satisfiable by non-trivial values -/
 
-/-- `it's "q" \ <newline> <0x01> <0x7f> <0x85> <U+FFFE>` with nothing printable above ASCII -/
-example : StrOk (fun _ => false) [105, 116, 39, 115, 32, 34, 113, 34, 32, 92, 10, 1, 127, 133, 65534] := by
+/-- `it's "q" \ <newline> <0x01> <0x7f> <0x85> <U+FFFE> <U+E0001> <U+10FFFF>` -/
+example : StrOk [105, 116, 39, 115, 32, 34, 113, 34, 32, 92, 10, 1, 127, 133, 65534, 917505, 1114111] := by
   intro c hc
   simp only [List.mem_cons, List.not_mem_nil, or_false] at hc
   omega
 
-/-- and `repr` really goes through every escape form: `\'`, `"`, `\\`, `\n`, `\x01`, `\x85`, `\ufffe` -/
-example : reprStr (fun _ => false) [39, 34, 92, 10, 1, 133, 65534] =
-    [39, 92, 39, 34, 92, 92, 92, 110, 92, 120, 48, 49, 92, 120, 56, 53, 92, 117, 102, 102, 102, 101, 39] := by
+/-- `repr` goes through every escape form: `\'`, `"`, `\\`, `\n`, `\x01`, `\x85`, `\ufffe`, `\U000e0001` -/
+example : reprStr (fun _ => false) [39, 34, 92, 10, 1, 133, 65534, 917505] =
+    [39, 92, 39, 34, 92, 92, 92, 110, 92, 120, 48, 49, 92, 120, 56, 53, 92, 117, 102, 102, 102, 101,
+     92, 85, 48, 48, 48, 101, 48, 48, 48, 49, 39] := by
   decide
 
-example : parseAttr (reprStr (fun _ => false) [39, 34, 92, 10, 1, 133, 65534]) =
-    .ok (.str [39, 34, 92, 10, 1, 133, 65534]) := by rfl
+example : parseAttr (reprStr (fun _ => false) [39, 34, 92, 10, 1, 133, 65534, 917505, 1114111]) =
+    .ok (.str [39, 34, 92, 10, 1, 133, 65534, 917505, 1114111]) := by rfl
 
-/-- a printable astral character is fine: U+1F600 -/
-example : StrOk (fun c => c == 128512) [128512] := by
-  intro c hc
-  simp only [List.mem_cons, List.not_mem_nil, or_false] at hc
-  subst hc; exact Or.inr rfl
+/-- an escape outside `\U00000000 … \U0010FFFF` is left alone, like any backslash that starts no alternative -/
+example : parseAttr [39, 92, 85, 48, 48, 49, 49, 48, 48, 48, 48, 39] =
+    .ok (.str [92, 85, 48, 48, 49, 49, 48, 48, 48, 48]) := by rfl
 
 /-- `1.5` -/
 example : isFloatRepr [49, 46, 53] = true := by decide
@@ -869,7 +914,7 @@ example : isFloatRepr [45, 50, 46, 53, 101, 43, 50, 48] = true := by decide
 /-- an integer literal `15` is not a float repr (it would read back as an `int`) -/
 example : isFloatRepr [49, 53] = false := by decide
 
-example : AttrOk (fun _ => false) (.float [49, 101, 45, 48, 55]) := by
+example : ValidAttr (.float [49, 101, 45, 48, 55]) := by
   show isFloatRepr _ = true; decide
 example : parseAttr [49, 101, 45, 48, 55] = .ok (.float [49, 101, 45, 48, 55]) := by rfl
 
